@@ -118,6 +118,7 @@ fn lin_case(seed: u64, idx: u64, thorough: bool, stats: &mut Counts) -> Result<S
     hooks::set_delays(delays, mix(&[seed, idx]));
     let res = (|| -> Result<(), Deviation> {
         let (db, _, _) = open_db(&dir, workers, 0).map_err(|e| Deviation::new("unexpected-error:open", format!("{e:?}")))?;
+        hooks::cs_monitor(true);
         let body = (|| -> Result<(), Deviation> {
         let kss: Vec<Keyspace> = (0..2)
             .map(|i| {
@@ -375,6 +376,12 @@ fn lin_case(seed: u64, idx: u64, thorough: bool, stats: &mut Counts) -> Result<S
         stats.inc("lin.histories");
         Ok(())
         })();
+        let (sections, overlaps) = hooks::cs_take();
+        stats.add("journal_critical_sections_observed", sections);
+        let body = match (body, overlaps.first()) {
+            (Ok(()), Some(o)) => Err(Deviation::new("lock:journal-critical-sections-overlap", o.clone())),
+            (b, _) => b,
+        };
         let dropped = timed_drop(db, "after a linearizability history");
         body.and(dropped)
     })();
@@ -415,6 +422,7 @@ fn batch_case(seed: u64, idx: u64, thorough: bool, stats: &mut Counts) -> Result
     let res = (|| -> Result<(), Deviation> {
         let (db, single, opt) = open_db(&dir, workers, front).map_err(|e| Deviation::new("unexpected-error:open", format!("{e:?}")))?;
         hooks::set_probe(Some(db.clone()));
+        hooks::cs_monitor(true);
         let mut soft: Option<Deviation> = None;
         let body = (|| -> Result<(), Deviation> {
         let kss: Vec<Keyspace> = (0..nks)
@@ -663,6 +671,13 @@ fn batch_case(seed: u64, idx: u64, thorough: bool, stats: &mut Counts) -> Result
                             let name = format!("x{}", n % 3);
                             if let Ok(ks) = db.keyspace(&name, KeyspaceCreateOptions::default) {
                                 let _ = ks.insert("i", "i");
+                                if n % 3 == 0 {
+                                    // bulk ingestion into another keyspace (must be serialised with commits by the journal lock)
+                                    if let Ok(mut ing) = ks.start_ingestion() {
+                                        let _ = ing.write(format!("g{n:08}"), "g");
+                                        let _ = ing.finish();
+                                    }
+                                }
                                 let _ = ks.rotate_memtable();
                                 if n % 2 == 0 {
                                     let _ = db.delete_keyspace(ks);
@@ -773,6 +788,12 @@ fn batch_case(seed: u64, idx: u64, thorough: bool, stats: &mut Counts) -> Result
         stats.inc("batch.histories");
         Ok(())
         })();
+        let (sections, overlaps) = hooks::cs_take();
+        stats.add("journal_critical_sections_observed", sections);
+        let body = match (body, overlaps.first()) {
+            (Ok(()), Some(o)) => Err(Deviation::new("lock:journal-critical-sections-overlap", o.clone())),
+            (b, _) => b,
+        };
         drop(single);
         drop(opt);
         let _ = hooks::take_premature();
@@ -919,6 +940,266 @@ fn single_case(seed: u64, idx: u64, thorough: bool, stats: &mut Counts) -> Resul
     res.map(|()| desc)
 }
 
+
+// ---------------------------------------------------------------------------------------------
+// mode views (C05 stress): readers hold snapshots for random durations while writers and real
+// workers run; the first complete read of a view is the reference for every later read of it
+
+fn views_case(seed: u64, idx: u64, thorough: bool, stats: &mut Counts) -> Result<String, Deviation> {
+    let mut rng = Rng::new(mix(&[seed, idx, 0x55]));
+    let writers = rng.range(2, 3) as usize;
+    let readers = rng.range(2, 4) as usize;
+    let workers = rng.range(1, 3) as usize;
+    let nkeys = 12u32;
+    let memtable = *rng.pick(&[1_024u64, 2_048]);
+    let delays = *rng.pick(&[0u64, 20, 60]);
+    let open_delay_us = *rng.pick(&[0u64, 200, 1_000, 3_000]);
+    let millis = if thorough { 1_200 } else { 400 };
+    let desc = format!(
+        "views writers={writers} readers={readers} workers={workers} memtable={memtable} delays_permille={delays} delay_at_tracker_open_us={open_delay_us} run_ms={millis}"
+    );
+    let dir = fresh_dir("hist");
+    hooks::set_delays(delays, mix(&[seed, idx]));
+    hooks::set_named_delay(if open_delay_us > 0 { Some(("tracker.open.read", open_delay_us)) } else { None });
+    let res = (|| -> Result<(), Deviation> {
+        let (db, _, _) = open_db(&dir, workers, 0).map_err(|e| Deviation::new("unexpected-error:open", format!("{e:?}")))?;
+        hooks::set_probe(Some(db.clone()));
+        let mut soft: Option<Deviation> = None;
+        let body = (|| -> Result<(), Deviation> {
+            let kss: Vec<Keyspace> = (0..2)
+                .map(|i| db.keyspace(&format!("v{i}"), || KeyspaceCreateOptions::default().max_memtable_size(memtable)))
+                .collect::<fjall::Result<_>>()
+                .map_err(|e| Deviation::new("unexpected-error:keyspace", format!("{e:?}")))?;
+            let stop = Arc::new(AtomicBool::new(false));
+            // (ks, key, value id or 0 for remove, call, ret, writer thread, ordinal of the writer's operation)
+            let writes: Arc<Mutex<Vec<(u8, u32, u64, u64, u64, usize, u64)>>> = Arc::new(Mutex::new(Vec::new()));
+            // views whose later read differed from the first: (create_call, create_ret, key index, first, later, text)
+            let changed: Arc<Mutex<Vec<(u64, u64, usize, u64, u64, String)>>> = Arc::new(Mutex::new(Vec::new()));
+            // (create_call, create_ret, observed per (ks,key))
+            let views: Arc<Mutex<Vec<(u64, u64, Vec<u64>)>>> = Arc::new(Mutex::new(Vec::new()));
+            let problems: Arc<Mutex<Vec<Deviation>>> = Arc::new(Mutex::new(Vec::new()));
+            let mut hs = Vec::new();
+            for w in 0..writers {
+                let kss = kss.clone();
+                let stop = stop.clone();
+                let writes = writes.clone();
+                let problems = problems.clone();
+                let mut r = Rng::new(mix(&[seed, idx, w as u64, 51]));
+                hs.push(
+                    std::thread::Builder::new()
+                        .name(format!("writer{w}"))
+                        .spawn(move || {
+                            let mut ctr = 0u64;
+                            let mut local = Vec::new();
+                            while !stop.load(Ordering::Relaxed) {
+                                let ksi = r.below(2) as u8;
+                                let k = r.below(u64::from(nkeys)) as u32;
+                                ctr += 1;
+                                let id = ((w as u64 + 1) << 40) | ctr;
+                                let call = tick();
+                                let res = if r.chance(1, 5) {
+                                    kss[ksi as usize].remove(key_bytes(k)).map(|()| 0u64)
+                                } else {
+                                    kss[ksi as usize].insert(key_bytes(k), val_bytes(id)).map(|()| id)
+                                };
+                                let ret = tick();
+                                match res {
+                                    Ok(v) => local.push((ksi, k, v, call, ret, w, ctr)),
+                                    Err(e) => {
+                                        problems.lock().unwrap().push(Deviation::new("unexpected-error:client-op", format!("{e:?}")));
+                                        break;
+                                    }
+                                }
+                                if r.chance(1, 40) {
+                                    let _ = kss[ksi as usize].rotate_memtable();
+                                }
+                            }
+                            writes.lock().unwrap().extend(local);
+                        })
+                        .expect("spawn"),
+                );
+            }
+            for rd in 0..readers {
+                let db = db.clone();
+                let kss = kss.clone();
+                let stop = stop.clone();
+                let views = views.clone();
+                let problems = problems.clone();
+                let changed = changed.clone();
+                let mut r = Rng::new(mix(&[seed, idx, rd as u64, 52]));
+                hs.push(
+                    std::thread::Builder::new()
+                        .name(format!("reader{rd}"))
+                        .spawn(move || {
+                            while !stop.load(Ordering::Relaxed) {
+                                let hold_ms = r.below(12);
+                                let out = catch_unwind(AssertUnwindSafe(|| -> Result<(u64, u64, Vec<u64>), Deviation> {
+                                    let call = tick();
+                                    let snap = db.snapshot();
+                                    let ret = tick();
+                                    let read_points = |what: &str| -> Result<Vec<u64>, Deviation> {
+                                        let mut v = Vec::with_capacity(2 * nkeys as usize);
+                                        for ksi in 0..2usize {
+                                            for k in 0..nkeys {
+                                                let x = snap
+                                                    .get(&kss[ksi], key_bytes(k))
+                                                    .map_err(|e| Deviation::new("view:read-error", format!("{what}: {e:?}")))?;
+                                                v.push(x.map_or(0, |x| val_id(&x)));
+                                            }
+                                        }
+                                        Ok(v)
+                                    };
+                                    let read_scan = |what: &str| -> Result<Vec<u64>, Deviation> {
+                                        let mut v = vec![0u64; 2 * nkeys as usize];
+                                        for ksi in 0..2usize {
+                                            for g in snap.iter(&kss[ksi]) {
+                                                let (k, x) = g.into_inner().map_err(|e| Deviation::new("view:read-error", format!("{what}: {e:?}")))?;
+                                                let n: usize = String::from_utf8_lossy(&k)[1..].parse().unwrap_or(0);
+                                                v[ksi * nkeys as usize + n] = val_id(&x);
+                                            }
+                                        }
+                                        Ok(v)
+                                    };
+                                    let first = read_points("first read")?;
+                                    std::thread::sleep(std::time::Duration::from_millis(hold_ms));
+                                    let again = read_points("re-read")?;
+                                    let scan = read_scan("scan re-read")?;
+                                    if again != first || scan != first {
+                                        let i = (0..first.len()).find(|i| again[*i] != first[*i] || scan[*i] != first[*i]).unwrap_or(0);
+                                        let later = if again[i] != first[i] { again[i] } else { scan[i] };
+                                        // classified after the run (explained-by predicate F5); the reader keeps going
+                                        changed.lock().unwrap().push((
+                                            call,
+                                            ret,
+                                            i,
+                                            first[i],
+                                            later,
+                                            format!(
+                                                "snapshot (instant {}) created at [{call},{ret}] and held {hold_ms} ms: key v{}/k{:03} first read as value {:#x}, later point read {:#x}, scan {:#x}",
+                                                snap.seqno(),
+                                                i / nkeys as usize,
+                                                i % nkeys as usize,
+                                                first[i],
+                                                again[i],
+                                                scan[i]
+                                            ),
+                                        ));
+                                        return Ok((call, ret, vec![]));
+                                    }
+                                    Ok((call, ret, first))
+                                }));
+                                match out {
+                                    Ok(Ok(v)) => {
+                                        let mut g = views.lock().unwrap();
+                                        if g.len() < 20_000 && !v.2.is_empty() {
+                                            g.push(v);
+                                        }
+                                    }
+                                    Ok(Err(d)) => {
+                                        problems.lock().unwrap().push(d);
+                                        return;
+                                    }
+                                    Err(_) => {
+                                        problems.lock().unwrap().push(Deviation::new(
+                                            "view:read-panicked",
+                                            format!("using a live snapshot panicked: {}", crate::take_panic()),
+                                        ));
+                                        return;
+                                    }
+                                }
+                            }
+                        })
+                        .expect("spawn"),
+                );
+            }
+            std::thread::sleep(std::time::Duration::from_millis(millis));
+            stop.store(true, Ordering::SeqCst);
+            for h in hs {
+                let _ = h.join();
+            }
+            let premature = hooks::take_premature();
+            stats.add("viewstress.premature_publication_windows", premature.len() as u64);
+            if let Some(p) = problems.lock().unwrap().first() {
+                return Err(p.clone());
+            }
+            // real-time rules on the logical clock
+            let writes = writes.lock().unwrap();
+            // views that changed: explained (F5) iff the value that appeared later belongs to a write that was in
+            // flight while the view was created and whose seqno was already below the visible seqno before its publish
+            for (c0, c1, i, first, later, text) in changed.lock().unwrap().iter() {
+                stats.inc("viewstress.changed_views");
+                let key = ((*i / nkeys as usize) as u8, (*i % nkeys as usize) as u32);
+                let cands: Vec<&(u8, u32, u64, u64, u64, usize, u64)> = writes
+                    .iter()
+                    .filter(|w| (w.0, w.1) == key && w.2 == *later && w.3 < *c1 && w.4 > *c0)
+                    .collect();
+                let explained = cands.iter().any(|w| {
+                    let th = format!("writer{}", w.5);
+                    premature.iter().any(|x| x.0 == th && x.1 == w.6 && x.4 > *c0 && w.3 < *c1)
+                });
+                if explained {
+                    stats.inc("viewstress.changed_views_explained_by_premature_publication");
+                    if soft.is_none() {
+                        soft = Some(Deviation::new(
+                            "known:premature-publication-by-tree-version-change",
+                            format!(
+                                "{text} [the value that appeared later (first {first:#x}) belongs to a write that was in flight while the view was created; the visible seqno was already 1 or more above its seqno before its publish: a tree version change raised it]"
+                            ),
+                        ));
+                    }
+                } else {
+                    return Err(Deviation::new("view:not-frozen", text.clone()));
+                }
+            }
+            let views = views.lock().unwrap();
+            stats.add("viewstress.views", views.len() as u64);
+            stats.add("viewstress.writes", writes.len() as u64);
+            let mut by_key: HashMap<(u8, u32), Vec<(u64, u64, u64)>> = HashMap::new();
+            for (ks, k, v, call, ret, _, _) in writes.iter() {
+                by_key.entry((*ks, *k)).or_default().push((*v, *call, *ret));
+            }
+            for (c0, c1, obs) in views.iter() {
+                for (i, seen) in obs.iter().enumerate() {
+                    let key = ((i / nkeys as usize) as u8, (i % nkeys as usize) as u32);
+                    let Some(ws) = by_key.get(&key) else { continue };
+                    if *seen != 0 {
+                        let Some(w) = ws.iter().find(|w| w.0 == *seen) else {
+                            return Err(Deviation::new("view:unknown-value", format!("a view shows value {seen:#x} that no writer wrote")));
+                        };
+                        if w.1 > *c1 {
+                            return Err(Deviation::new(
+                                "view:future-write",
+                                format!("view created at [{c0},{c1}] shows a value whose write call only started at {}", w.1),
+                            ));
+                        }
+                        if let Some(newer) = ws.iter().find(|x| x.1 > w.2 && x.2 < *c0) {
+                            return Err(Deviation::new(
+                                "view:stale",
+                                format!(
+                                    "view created at [{c0},{c1}] shows the value of a write that returned at {} although a later write ({}..{}) to the same key had been acknowledged before the view was created",
+                                    w.2, newer.1, newer.2
+                                ),
+                            ));
+                        }
+                    }
+                }
+            }
+            stats.inc("viewstress.histories");
+            Ok(())
+        })();
+        let _ = hooks::take_premature();
+        let dropped = timed_drop(db, "after a view-stress history");
+        body.and(dropped).and(match soft {
+            Some(d) => Err(d),
+            None => Ok(()),
+        })
+    })();
+    hooks::set_delays(0, 0);
+    hooks::set_named_delay(None);
+    rm_rf(&dir);
+    res.map(|()| desc)
+}
+
 pub fn main(args: &Args) -> i32 {
     let mode = args.str("mode", "lin");
     let property = args.str("property", "C14");
@@ -945,6 +1226,7 @@ pub fn main(args: &Args) -> i32 {
         let res = catch_unwind(AssertUnwindSafe(|| match mode.as_str() {
             "lin" => lin_case(seed, idx, thorough, &mut stats),
             "batch" => batch_case(seed, idx, thorough, &mut stats),
+            "views" => views_case(seed, idx, thorough, &mut stats),
             _ => single_case(seed, idx, thorough, &mut stats),
         }));
         crate::watchdog::end_case();
@@ -1001,7 +1283,7 @@ pub fn main(args: &Args) -> i32 {
                         "key",
                         J::s(format!(
                             "{idx}:{}:{}:{}",
-                            stats.get("lin.ops_checked") + stats.get("batch.views") + stats.get("single.increments"),
+                            stats.get("lin.ops_checked") + stats.get("batch.views") + stats.get("single.increments") + stats.get("viewstress.views"),
                             stats.get("point.worker.flush.after_run"),
                             stats.get("point.write.drawn") + stats.get("point.batch.drawn")
                         )),
